@@ -20,6 +20,7 @@ REQUIRED_THEOREMS = [
     "TapkeeVerif.C05.mds_optimal",
     "TapkeeVerif.C05.kpca_optimal",
     "TapkeeVerif.C05.certificate_sound",
+    "TapkeeVerif.C05.certificate_sound_robust",
 ]
 
 
@@ -81,8 +82,9 @@ def judge(ctx, binary, cases):
         if sp.has_nonfinite(f["pre"]) or sp.has_nonfinite(f["V"]) or sp.has_nonfinite(f["lam"]):
             verdicts[n] = {"impl": io[:300], "model": "", "bad": [("eig", "nonfinite-solver-output")], "soft": []}
             continue
-        jl.append("%s pre=%s V=%s lam=%s Y=%s nancols=%s" % (
-            line, f["pre"], f["V"], f["lam"], ytxt, ",".join(map(str, sorted(nan_y))) or "-"))
+        jl.append("%s robustmax=%d pre=%s V=%s lam=%s Y=%s nancols=%s" % (
+            line, 16 if ctx.tier == "quick" else 32, f["pre"], f["V"], f["lam"], ytxt,
+            ",".join(map(str, sorted(nan_y))) or "-"))
         where.append(n)
     if jl:
         rc, out, err = ctx.run_model("model_c05", jl)
@@ -103,6 +105,7 @@ def judge(ctx, binary, cases):
                 if not (val.startswith("exact") or val.startswith("approx") or val.startswith("nan-columns")):
                     v["soft"].append((key, val.split(":")[0].split("@")[0]))
             v["cmp"] = t.get("cmp", "")
+            v["robust"] = t.get("robust", "")
             verdicts[n] = v
     for c, v in zip(cases, verdicts):
         first = (v["bad"] or v["soft"] or [None])[0]
@@ -199,6 +202,8 @@ def account(ctx, c, v):
         for part in cmp_.split(","):
             k, n = part.split(":")
             ctx.stat("comparisons:" + k, int(n))
+    if v.get("robust"):
+        ctx.stat("tolerance-proof-extremality-certificate:" + v["robust"])
     if v.get("skip"):
         ctx.stat("verdict:" + v["skip"])
     elif v["sig"] is None:
@@ -357,7 +362,9 @@ def correspond(ctx):
     ctx.assumptions += [
         "eigensolver (Eigen SelfAdjointEigenSolver / randomized range finder) enters the theorems as a contract "
         "(IsTopEig); its outputs are certificate-checked per run in exact rationals: residual, orthonormality <= 2^-30 "
-        "relative, extremality by exact LDL^T inertia of B - (lambda_min +- 2^-30 scale) I",
+        "relative, extremality by exact LDL^T inertia of B - (lambda_min +- 2^-30 scale) I (sound at zero tolerance: "
+        "certificate_sound) and, for N <= 16 (thorough 32), by the deflated PSD certificate that is sound for approximate "
+        "eigenvectors (certificate_sound_robust); counts in distribution['tolerance-proof-extremality-certificate:*']",
         "sqrt enters as a contract s >= 0, s^2 = lambda, checked per run to 2^-40 relative",
         "IEEE rounding: exact-mode cases (N a power of two, integer inputs) demand equality of the hook matrix with the "
         "model; all other comparisons are within 2^-30 of the largest magnitude and are counted separately",
